@@ -132,3 +132,30 @@ def compound_after_constants():
                "print([c.hits, c.misses, c.fresh, total, other, late, table.len()]);\n" % table)
         out.append(("compound-consts/%d" % n, src))
     return out
+
+
+def handler_sum_family():
+    """try statements whose try block and catch block each fit their own 16-bit size but whose sizes add up to around and
+    beyond 65536 (the handler keeps both, and the address behind the catch block is their sum): every path through the
+    statement - fall through, throw -> catch, return from the try block through finally, throw from a callee - still goes
+    where the source says"""
+    out = []
+    for a, b in [(32768, 32767), (32768, 32768), (32768, 32769), (40000, 30000), (65000, 600), (600, 65000), (50000, 50000), (60000, 60000), (20000, 20000)]:
+        A, B = filler(a), filler(b)
+        out.append(("handler-sum/%d+%d" % (a, b), "\n".join([
+            "fn h(mode) {",
+            "    var before = [mode];",
+            "    try { %s" % A,
+            "        if mode == 1 { throw \"thrown\"; }",
+            "        if mode == 2 { return \"returned\"; }",
+            "        if mode == 3 { [][1]; }",
+            "        before.push(\"end of try\");",
+            "    } catch e { %s" % B,
+            "        before.push(\"caught\");",
+            "    } finally { before.push(\"finally\"); }",
+            "    before.push(\"after\");",
+            "    return before;",
+            "}",
+            "print(h(0)); print(h(1)); print(h(2)); print(h(3)); print(h(0));",
+            "try { print(h(2)); throw \"outer\"; } catch e { print(e); }", ""])))
+    return out
